@@ -399,6 +399,7 @@ type c17Out struct {
 	in, obs []Ev
 	fail    string // direct predicate
 	pred    string
+	stuck   bool   // the history never finished (deadlock verdict); nothing observed
 	f17     bool   // the nil-pointer pattern of finding F17 was observed
 	f17what string
 	fams    []*dto.MetricFamily
@@ -605,7 +606,39 @@ type c17Obj struct {
 	samp  []int64 // recorded values (bits or ns)
 }
 
-func c17RunScope(c *c17Case) (out c17Out) {
+// c17Stuck counts the scope-mode cases that ended in a deadlock verdict; the
+// goroutines of such cases are abandoned (they hold tally locks for ever).
+var c17Stuck int
+
+// c17RunScope runs the history in a goroutine that can be abandoned: a caller
+// that recovers the callback's panic keeps using the scope (first uses,
+// records, report passes, Close), and none of that may block for ever.  The
+// verdict comes from the goroutine states (waitOrDeadlock), not from time.
+func c17RunScope(c *c17Case) c17Out {
+	var out c17Out
+	var prog atomic.Value
+	prog.Store("start")
+	var wg sync.WaitGroup
+	wg.Add(1)
+	go func() {
+		defer wg.Done()
+		out = c17RunScopeBody(c, &prog)
+	}()
+	if dl := waitOrDeadlock(&wg, "uber-go/tally/v4."); dl != "" {
+		c17Stuck++
+		where := ""
+		for _, ln := range strings.Split(dl, "\n") {
+			if strings.Contains(ln, "tally/v4.(") && where == "" {
+				where = strings.TrimSpace(ln)
+			}
+		}
+		return c17Out{stuck: true, pred: "usable_after_conflict", params: []int64{0, int64(c.TimerType), c.CbMask, 1},
+			fail: fmt.Sprintf("after the recovered panic of the error callback the scope is stuck: %s blocks for ever in %s", prog.Load(), where)}
+	}
+	return out
+}
+
+func c17RunScopeBody(c *c17Case, prog *atomic.Value) (out c17Out) {
 	e, rb := c17NewEnv(c)
 	out.in = c17PreEvents(c, rb)
 	root, closer := tally.NewRootScope(tally.ScopeOptions{
@@ -621,8 +654,10 @@ func c17RunScope(c *c17Case) (out c17Out) {
 	}
 	var objs []*c17Obj
 	passBroken := false
+	recovered := -1
 	for oi := range c.Ops {
 		o := &c.Ops[oi]
+		prog.Store(fmt.Sprintf("op %d (%s u=%d %q, callback panics recovered so far: op %d)", oi, o.Op, o.U, o.Name, recovered))
 		if o.Op == "decl" {
 			ob := &c17Obj{u: o.U, name: string(o.Name), tags: o.Tags, spec: o.Spec}
 			sc := root
@@ -656,6 +691,9 @@ func c17RunScope(c *c17Case) (out c17Out) {
 				}
 			})
 			ob.dead = code >= 2
+			if code == 2 {
+				recovered = oi
+			}
 			ob.noop = code == 1
 			if code == 3 {
 				out.f17, out.f17what = true, fmt.Sprintf("op %d (first use u=%d %q): panic: %s", oi, o.U, o.Name, what)
@@ -716,6 +754,7 @@ func c17RunScope(c *c17Case) (out c17Out) {
 		e.cleanup()
 	}
 	out.obs = append(out.obs, Ev{K: 11, I: append([]int64{}, e.cbLog...)})
+	prog.Store(fmt.Sprintf("Gather (callback panics recovered so far: op %d)", recovered))
 	g, fams, nerr := c17Gather(e.reg)
 	out.fams = fams
 	out.obs = append(out.obs, g...)
@@ -729,6 +768,7 @@ func c17RunScope(c *c17Case) (out c17Out) {
 		}
 	}
 	if !passBroken {
+		prog.Store(fmt.Sprintf("Close of the root scope (callback panics recovered so far: op %d)", recovered))
 		if code, what := e.guarded(c, func() { closer.Close() }); code != 0 {
 			setFail("conflict_never_nil", fmt.Sprintf("closing the root scope: code %d %s", code, what))
 		}
@@ -1673,6 +1713,45 @@ func c17AmbSeq(letters []int, timerType int, mask int64, cb string) c17Case {
 	return c
 }
 
+// c17AfterPanic: a first use through a scope is rejected (name reused for
+// another kind, or with other tag keys), the error callback PANICS, the caller
+// recovers — as net/http does for a handler — and keeps using the same scope:
+// a first use of that kind under a fresh name, a record, a report pass, Close.
+func c17AfterPanic(a, b int, otherKeys bool, timerType int, cb string) c17Case {
+	c := c17Case{Mode: 0, TimerType: timerType, Cb: cb, CbMask: -1, DefBMode: 1, DefB: []int64{fbits(0.001), fbits(0.5)}}
+	t1 := [][2]B{{"a", "v1"}}
+	t2 := t1
+	if otherKeys {
+		t2 = [][2]B{{"a", "v1"}, {"b", "w"}}
+	}
+	spec := func(u int) []int64 {
+		if u == 4 {
+			return []int64{fbits(0.25), fbits(1)}
+		}
+		return nil
+	}
+	rec := func(o, u int) c17Op {
+		switch u {
+		case 1:
+			return c17Op{Op: "inc", O: o, V: 3}
+		case 2:
+			return c17Op{Op: "upd", O: o, V: fbits(2.5)}
+		case 3:
+			return c17Op{Op: "rec", O: o, V: 2e6}
+		}
+		return c17Op{Op: "recv", O: o, V: fbits(0.25)}
+	}
+	c.Ops = []c17Op{
+		{Op: "decl", U: a, Name: "x", Tags: t1, Spec: spec(a)}, rec(0, a),
+		{Op: "decl", U: b, Name: "x", Tags: t2, Spec: spec(b)}, rec(1, b),
+		{Op: "decl", U: b, Name: "after", Tags: t2, Spec: spec(b)}, rec(2, b),
+		{Op: "pass"},
+		{Op: "decl", U: a, Name: "later", Tags: t1, Spec: spec(a)}, rec(3, a),
+		{Op: "pass"},
+	}
+	return c
+}
+
 func c17GenDirect(r *Rng, i int) c17Case {
 	c := c17Case{Mode: 1, TimerType: []int{0, 1, 0, 1, 7}[r.Intn(5)], Cb: "fn", Wrap: r.Bool()}
 	switch r.Intn(10) {
@@ -1851,6 +1930,9 @@ func init() {
 			cc := *c0 // recorded cases must not alias a variable the caller reuses
 			c := &cc
 			var out c17Out
+			if c.Mode == 0 && c17Stuck >= 4 {
+				return // four histories already ended in a deadlock verdict: enough witnesses
+			}
 			switch c.Mode {
 			case 0:
 				out = c17RunScope(c)
@@ -1862,7 +1944,7 @@ func init() {
 			may := c17MayHitF17(c)
 			idx := ctx.Res.Evaluations
 			term := gcase(idx, out.params, out.in, out.obs)
-			if (out.f17 && may) || !toCoq {
+			if (out.f17 && may) || !toCoq || out.stuck {
 				term = "" // (the pinned tree's behaviour is not the repaired model's)
 			}
 			key := ""
@@ -1905,6 +1987,27 @@ func init() {
 			c := c
 			one(&c, "witness")
 		}
+		// a recovered callback panic must leave the scope usable
+		nap := 0
+		for a := 1; a <= 4; a++ {
+			for b := 1; b <= 4; b++ {
+				for _, ok := range []bool{false, true} {
+					if !ok && a == b {
+						continue // the same object: nothing is rejected
+					}
+					for tt := 0; tt < 2; tt++ {
+						for _, cb := range []string{"fn", "nil", "cfgpanic"} {
+							c := c17AfterPanic(a, b, ok, tt, cb)
+							toCoq = (nap+int(ctx.Seed))%3 == 0
+							nap++
+							one(&c, "afterpanic")
+						}
+					}
+				}
+			}
+		}
+		toCoq = true
+		ctx.Res.Extra["recovered_panic_histories"] = nap
 		// all conflict sequences
 		maxLen := 4
 		if ctx.Thorough() {
@@ -1998,6 +2101,7 @@ func init() {
 			c := c17GenDirect(ctx.R, i)
 			one(&c, "direct")
 		}
+		ctx.Res.Extra["deadlock_verdicts"] = c17Stuck
 		// concurrent first uses: G goroutines, same name and tag keys, at once
 		t0 := time.Now()
 		budget := time.Duration(ctx.N(4, 30)) * time.Second
